@@ -38,6 +38,13 @@ BASE_ENC_MENU = BASE_ENCODINGS + ["FooEncoding"]
 GLYPHS = ["Aacute", "bullet", "Euro", "fi", "zcaron", "germandbls", "A", "Z", "space", "eacute",
           "quotedblleft", "endash", "g123", "one", "ampersand", "ydieresis"]
 STD14 = ["Helvetica", "Times-Roman", "Courier", "Helvetica-Bold"]
+# every name FontMetricsDB knows a built-in table for: the 14 standard fonts ...
+STD14_ALL = ["Courier", "Courier-Bold", "Courier-Oblique", "Courier-BoldOblique", "Helvetica", "Helvetica-Bold",
+             "Helvetica-Oblique", "Helvetica-BoldOblique", "Times-Roman", "Times-Bold", "Times-Italic",
+             "Times-BoldItalic", "Symbol", "ZapfDingbats"]
+# ... and alias spellings that share the table OBJECT of a standard name (own widths under one, built-in under the other)
+STD14_ALIAS = [("Arial", "Helvetica"), ("CourierNew,Bold", "Courier-Bold"), ("TimesNewRoman", "Times-Roman")]
+STD14_OWN = ["own", "own+mw", "own-indirect", "own"]
 
 # predefined CMaps (name, CIDSystemInfo ordering, sample byte strings); None ordering -> Identity
 CMAPS = [
@@ -292,6 +299,18 @@ class Plan:
         self.simple = ["std14", "type1", "truetype", "type3"]
         rng.shuffle(self.simple)
         self.simple_i = 0
+        # standard-14 fonts in PAIRS over the same built-in table: once with the font dictionary's own
+        # /FirstChar /Widths (/MissingWidth), once relying on the built-in metrics — in both orders, through all
+        # names (rotating start); consecutive entries go to consecutive documents
+        pairs14 = [(a, a) for a in STD14_ALL] + list(STD14_ALIAS)
+        k14 = rng.randrange(len(pairs14))
+        pairs14 = pairs14[k14:] + pairs14[:k14]
+        self.std14: List[Tuple[str, str]] = []
+        for i, (a, b) in enumerate(pairs14):
+            own = STD14_OWN[i % len(STD14_OWN)]
+            self.std14 += [(a, own), (b, "builtin")] if i % 2 == 0 else [(b, "builtin"), (a, own)]
+        self.std14_i = 0
+        self.wtab_i = rng.randrange(8)
         # predefined CMaps: the writing-mode pairs first (a rotating start, -H and -V adjacent so that both
         # land in the same pool), then the hand-picked ones
         n0, allc = len(CMAPS), all_cmaps()
@@ -310,6 +329,10 @@ class Plan:
 
     def next_enc(self):
         return self.enc.pop(0) if self.enc else None
+
+    def next_std14(self) -> Tuple[str, str]:
+        self.std14_i += 1
+        return self.std14[(self.std14_i - 1) % len(self.std14)]
 
     def next_simple(self) -> str:
         self.simple_i += 1
@@ -389,9 +412,38 @@ def gen_font(rng, alloc, plan: Optional[Plan] = None, force: Optional[str] = Non
     elif force == "other" and plan is not None:
         k, forced_cmap = plan.next_other()
         r = 0.7 if k == "cid-identity" else 0.9
+    if force == "std14" and plan is not None:
+        r = 0.1
     if r < 0.25:
         fd.kind = "std14"
-        fd.obj = {"Type": "Font", "Subtype": "Type1", "BaseFont": rng.choice(STD14)}
+        if force == "std14" and plan is not None:
+            bname, variant = plan.next_std14()
+        else:
+            bname = rng.choice(STD14_ALL + [a for a, _ in STD14_ALIAS])
+            variant = rng.choice(["builtin", "builtin", "own", "own+mw", "own-indirect", "mw"])
+        fd.obj = {"Type": "Font", "Subtype": "Type1", "BaseFont": bname}
+        fd.std14_variant = variant      # type: ignore[attr-defined]
+        if variant.startswith("own"):
+            # the font dictionary's own widths take precedence over the built-in metrics — for THIS font only
+            wi = plan.wtab_i if plan is not None else rng.randrange(8)
+            if plan is not None:
+                plan.wtab_i += 1
+            first = [32, 0, 32, 65][wi % 4]
+            n = 256 - first
+            table = [[2000] * n, [rng.choice([250, 333, 500, 556, 722, 1000]) for _ in range(n)],
+                     [120] * n, [300 + 7 * (j % 97) for j in range(n)]][(wi // 2) % 4]
+            fd.obj["FirstChar"] = first
+            fd.obj["LastChar"] = 255
+            if variant == "own-indirect":
+                wn = alloc()
+                fd.aux[wn] = table
+                fd.reads.append(wn)
+                fd.obj["Widths"] = Ref(wn)
+            else:
+                fd.obj["Widths"] = table
+        if variant in ("own+mw", "mw"):
+            fd.obj["FontDescriptor"] = {"Type": "FontDescriptor", "FontName": bname, "Flags": 32,
+                                        "FontBBox": [-100, -210, 1000, 900], "MissingWidth": rng.choice([0, 500, 1500])}
         enc = gen_encoding(rng, fd, alloc, plan)
         if enc is not None:
             fd.obj["Encoding"] = enc
@@ -528,7 +580,7 @@ class Doc:
 
 
 def content_names(b: bytes) -> List[str]:
-    return [m.decode("latin-1") for m in re.findall(rb"/([A-Za-z0-9+\-_.]+)", b)]
+    return [m.decode("latin-1") for m in re.findall(rb"/([A-Za-z0-9+\-_.,]+)", b)]
 
 
 GOP_CODE = {"re": 0, "m": 1, "l": 2, "h": 3, "paint": 4, "n": 5, "q": 6, "Q": 7, "w": 8, "operand": 9}
@@ -610,7 +662,13 @@ def gen_doc(rng, idx: int, plan: Optional[Plan] = None) -> Doc:
     fonts: List[FontDesc] = []
     for k in range(nfonts):
         # font 0: simple font with the next planned encoding; font 1: next planned composite font
-        fd = gen_font(rng, mk_alloc(k), plan, "simple" if k in (0, 2) else "other")
+        # every other document: font 0 (shown on every page) is the next standard-14 font of the planned pairs
+        fd = gen_font(rng, mk_alloc(k), plan, ("std14" if k == 0 and idx % 2 == 0 and plan is not None else "simple")
+                      if k in (0, 2) else "other")
+        if getattr(fd, "std14_variant", None) is not None:
+            d.features.append("std14:" + fd.std14_variant)      # type: ignore[attr-defined]
+            if k == 0 and idx % 2 == 0 and plan is not None:
+                plan.seen.append("std14-pair:" + ("own-widths" if fd.std14_variant.startswith("own") else "builtin"))  # type: ignore[attr-defined]
         fonts.append(fd)
         objs[FONT_BASE + k] = fd.obj
         objs.update(fd.aux)
